@@ -22,7 +22,7 @@ def sh(c):
 ids = sys.argv[1:] or sorted(d for d in os.listdir(f"{V}/benign") if os.path.isdir(f"{V}/benign/{d}"))
 sh(f"git -C /repo worktree remove --force {WT}")
 assert sh(f"git -C /repo worktree add -q --detach {WT} HEAD").returncode == 0
-res = {}
+res = json.load(open(f"{V}/benign/results.json")) if os.path.exists(f"{V}/benign/results.json") else {}
 bad = 0
 try:
     for i in ids:
